@@ -131,6 +131,36 @@ def check_tree(ctx, out, spec, tag, tree=None, typed=False):
             out.fail(case, f"[is_descendant_of, is_ancestor_of, get_common_ancestor]({a},{b}) = {impl}, follows from shape: {sp}", impl=impl, spec=sp, model=model)
         elif impl != model:
             out.disagree(case, f"pair ({a},{b}): impl {impl} model {model}")
+    # tree-level accessors and queries that involve a node of ANOTHER tree (no common ancestor, no ancestry)
+    tops = list(tree.children)
+    ck = ()
+    if typed:
+        from nutree.typed_tree import ANY_KIND
+
+        ck = (ANY_KIND,)
+    tl = dict(toplevel=tree.get_toplevel_nodes(), first=tree.first_child(*ck), last=tree.last_child(*ck), count=tree.count, len=len(tree),
+              truth=bool(tree))
+    want_tl = dict(toplevel=tops, first=tops[0] if tops else None, last=tops[-1] if tops else None, count=size, len=size, truth=size > 0)
+    out.dist["tree_level"] += 1
+    for k in want_tl:
+        same = (len(tl[k]) == len(want_tl[k]) and all(x is y for x, y in zip(tl[k], want_tl[k]))) if k == "toplevel" else (
+            tl[k] is want_tl[k] if k in ("first", "last") else tl[k] == want_tl[k])
+        if not same:
+            out.fail(dict(kind="tree-level", spec=spec, accessor=k, typed=typed), f"tree-level {k} = {tl[k]!r}, the shape says {want_tl[k]!r}")
+    for n in nodes.values():
+        gc = n.get_children(*ck)
+        if len(gc) != len(n.children) or any(x is not y for x, y in zip(gc, n.children)):
+            out.fail(dict(kind="node", spec=spec, accessor="get_children", typed=typed), f"get_children() of {n!r} differs from children")
+        if n.is_system_root():
+            out.fail(dict(kind="node", spec=spec, accessor="is_system_root", typed=typed), f"is_system_root() of {n!r} is true")
+    if nodes:
+        other = adapter.build([(0, [(1, [])])], ctx.pool, typed=typed)
+        foreign = other.children[0].children[0]
+        for n in list(nodes.values())[:4]:
+            got = [n.get_common_ancestor(foreign), foreign.get_common_ancestor(n), n.is_descendant_of(foreign), n.is_ancestor_of(foreign)]
+            out.dist["foreign_pairs"] += 1
+            if got != [None, None, False, False]:
+                out.fail(dict(kind="foreign-pair", spec=spec, typed=typed), f"queries between {n!r} and a node of another tree = {got}, expected [None, None, False, False]")
     th = tree.calc_height()
     if th != resp["tree_height_spec"]:
         out.fail(dict(kind="tree_height", spec=spec), f"tree.calc_height() = {th}, shape says {resp['tree_height_spec']}")
